@@ -66,8 +66,10 @@ add("C16", "solver-sim", "exploration",
     "Per back-end (KLU, UMFPACK, SuperLU) seeded histories of same-pattern / new-pattern / new-size / singular / regular-again matrices through "
     "solve() and linsolve(), with and without refresh requests, are judged by numpy.linalg (||Ax-b|| <= 1e-9||b||; singular => NaN/exception and "
     "recovery); a worker death by signal is an observation. In real runs an injected stale symbolic factor must leave the trajectory "
-    "bit-identical; the same disturbed plan under different sparselib/linsolve/ipadd/PF-method must agree (PF 1e-9, trajectory/eigenvalues 1e-6 "
-    "or a step-halving bound when discrete switching differs); the Jacobian pattern must be constant; two fresh interpreters with different "
+    "bit-identical and every solve of the run must satisfy A x = b for the matrix and right-hand side it was given; the same disturbed plan "
+    "under different sparselib/linsolve/ipadd/PF-method must agree (PF 1e-9, trajectories 1e-6 or a step-halving bound when discrete "
+    "switching differs, state matrices 1e-6 with a bit-identical-operating-point discriminator for break-point ties, eigenvalues 1e-6 where "
+    "the Bauer-Fike bound says rounding cannot separate them); the Jacobian pattern must be constant; two fresh interpreters with different "
     "hash seeds must give identical bytes.",
     "Trusted: numpy.linalg as dense reference; numba JIT on/off is not exercised in the quick tier.", "DESIGN.md section 4, C16")
 
@@ -75,7 +77,7 @@ add("C17", "tds-sim", "fault_enumeration",
     "fault enumeration: fixed catalogue of constructed / injected failures (class x case x position) run completely, plus seeded combinations; flags, exit codes, dependants and stored state checked",
     "A fixed catalogue (overload, NaN at iteration k, iteration limit, no slack, zero impedance, solver NaN / persistent rejection / shrinkt=0 at "
     "attempt k, criterion trip, corrupted PF hand-over, dependants after a failed PF, missing / unknown / truncated input per format, fail-repair-"
-    "retry) is executed completely on every run and extended by seeded combinations over the stock cases. Failure must give False, non-zero exit "
+    "retry, and success followed by an infeasible re-run on the same System: loads altered x50, iteration limit, solver NaN) is executed completely on every run and extended by seeded combinations over the stock cases. Failure must give False, non-zero exit "
     "code, refusing dependants, no NaN rows or solution; each reported success is re-examined (residual at the reported solution, end time, "
     "criterion).",
     "Trusted: PF success is re-examined with the routine's own residual evaluation; for corrupt input an exception that would end the CLI with "
@@ -87,7 +89,9 @@ add("C05", "tds-sim", "exploration",
     "disturbance under seeded method/step/solver/tolerance, split into resumed segments, optionally under quasi-real-time stepping with a "
     "simulated steady/slow/jumpy/stalled/fast wall clock. test_ok must equal the simulator's own reading of the residuals, bus slots must carry "
     "the power-flow solution bit-exactly, stock data measured consistent must keep initialising, and with every limiter strictly inside the "
-    "state must not move (<= 20x the init residual). A corrupted hand-over must be reported (test_ok False, exit code, run() not True).",
+    "state must not move (<= 20x the init residual). A corrupted hand-over must be reported (test_ok False, exit code, run() not True). "
+    "A fifth of the plans take one generating unit completely out of service before set-up: a static generator that is off in the power "
+    "flow must not be in service after the dynamic initialisation, and the case must still initialise.",
     "Not claimed: combinations of dynamic models that no stock case contains (pure input generation). Trusted: limiter flags zl/zu as the "
     "precondition; zero-time-constant states are excluded from the drift measure.", "DESIGN.md section 4, C05")
 
@@ -116,7 +120,8 @@ add("C12", "lifecycle-sim", "exploration",
 add("C10", "lifecycle-sim", "exploration",
     "deterministic simulation: stock cases rebuilt through System.add in seeded device order with seeded index re-typing, seeded lifecycle (setup / power flow / reset / dynamic init / steps / snapshot restore); ownership bijection and unique-sentinel aliasing checked after every operation",
     "Every stock case is taken apart into device rows and rebuilt through System.add in file, reversed, model-shuffled or fully interleaved "
-    "order with per-group numeric<->string index re-typing applied consistently to every reference. After each lifecycle operation (both "
+    "order with per-group numeric<->string index re-typing applied consistently to every reference; in 30 % of the plans a seeded subset of the "
+    "models uses collated storage (ModelFlags.collate). After each lifecycle operation (both "
     "addressing phases, reset, snapshot save/load) the reference checker verifies that every internal variable of every device owns exactly "
     "one slot, all slots are owned, slot names name the owner, and - with a unique sentinel in every slot - reads through the model, Model.get, "
     "Group.get and every external link return the sentinel of the slot of the device named by the index field. The rebuilt system must solve "
@@ -129,7 +134,8 @@ add("C11", "lifecycle-sim", "exploration",
     "Stock cases are rebuilt with seeded device bases different from the system base (physics kept), then a seeded history of public-API "
     "operations runs across the three lifecycle phases. After every operation each flagged power/voltage/current/impedance/admittance "
     "parameter must satisfy v == vin*k with k recomputed from Sn, Vn, bus Vn and system MVA; an altered PQ load must be what the converged "
-    "power flow injects; an altered time constant must be in dae.Tf and TDS.Teye and the following steps must satisfy the rule mirror with the "
+    "power flow injects; an altered time constant must be in dae.Tf and TDS.Teye for every state it serves (shared time constants of the "
+    "renewable models included) and the following steps must satisfy the rule mirror with the "
     "independently rebuilt mass matrix; every json/xlsx export written after an alteration - whatever was exported or cached before - and the "
     "reloaded export must carry the altered input-base values; reset() restores v = vin*k.",
     "Trusted: the quantity kind of each parameter is read from the model declaration; parameters touched by Model.set are excluded until "
@@ -171,8 +177,8 @@ add("C13", "restart-sim", "exploration",
 add("C08", "lifecycle-sim", "exploration",
     "deterministic simulation: seeded eig / alter / sweep / flat-TDS / snapshot / reset histories; every eigenvalue result compared with a freshly built twin; output invariants, dense state-matrix recomputation and pencil reference on every call",
     "Partial claim: the history clause (state matrix of the current operating point after any history, including parameter sweeps). After "
-    "seeded histories of EIG.run, Model.alter of time constants / damping, EIG.sweep over them, flat simulated segments, snapshot save/load "
-    "and reset, every reported spectrum must equal (as a multiset, 2e-4) that of a fresh System given the same data before its power flow. "
+    "seeded histories of EIG.run, Model.alter of time constants / damping (also to and from zero for exciter transducer lags, so that a state "
+    "changes class between two analyses), EIG.sweep over them (also ending at zero), flat simulated segments, snapshot save/load and reset, every reported spectrum must equal (as a multiset, 2e-4) that of a fresh System given the same data before its power flow. "
     "Monitored on every call because it is free: counts partition the eigenvalues, participation factors are non-negative with unit sums per "
     "mode, EIG.As equals numpy's dense T^-1(fx - fy gy^-1 gx) from freshly updated Jacobians and an independently rebuilt mass matrix, and the "
     "spectrum equals scipy's finite generalised eigenvalues of the pencil (also with zero time constants).",
@@ -196,11 +202,13 @@ add("C02", "codegen-store", "exploration",
     "matches the model is never silently used). Each scenario works on a private copy of the store (own HOME) and drives it through fresh "
     "interpreters: equation edits and their reversal, overwritten md5, files truncated at a seeded byte, deleted __init__/model files, a "
     "generation that dies after k tasks of an in-process pool with seeded completion order, repeated regenerations. After every start the "
-    "loaded residual functions of four probe models are executed through the model's own name-based binding on seeded values and compared "
-    "with a sympy evaluation by symbol name of the currently declared strings; md5 of loaded code must match the model; regenerated files "
-    "must be byte-identical to a clean generation.",
-    "Not claimed: the for-all-arguments / all-models clause (only seeded points of Shunt, PQ, Line, GENCLS are evaluated). Tampered code "
-    "with a valid md5 is outside the gate by design.", "DESIGN.md section 4, C02")
+    "loaded residual functions of four probe models (1e-9) and of every model in use of a seeded stock case (residuals, variable and "
+    "constant services, explicit initialisation assignments; 1e-6; all 45 evaluation cases after a full regeneration) are executed through "
+    "the model's own update methods on seeded values and compared with a sympy evaluation by symbol name of the currently declared strings "
+    "(dst/symcheck.py); md5 of loaded code must match the model; regenerated files must be byte-identical to a clean generation (the "
+    "__version__ line of the package file, which records the git state of the checkout, excepted).",
+    "Not claimed: the for-all-arguments clause (seeded points only) and models that no evaluation case contains. Tampered code with a valid "
+    "md5 is outside the gate by design.", "DESIGN.md section 4, C02")
 
 ENGINES = [
     {"name": "tds-sim", "path": "dst/tdssim.py", "kind_free_text": "real TDS loop under StepTap/SolverTap/TimerTap/StoreTap/ConnTap "
